@@ -2,7 +2,7 @@
 //
 // Functions under check (real code): `FrameType::{encode, grease}`, `SettingId::grease`,
 // `simple_frame_encode`, `impl Encode for Frame<B>` (every variant an API call can construct),
-// `FrameHeader::{len, encode_header}` for `PushPromise`, `Frame::{payload, payload_mut}`.
+// `FrameHeader::{len, encode_header}` for `PushPromise`, `Frame::payload`.
 // (`Settings::{len, encode}` with entries: kani/h3/src/proto/frame__settings.rs, other builder.)
 // Spec: RFC 9114 §7.1 (Type (i), Length (i), payload), §7.2.x type values and payload layouts,
 // §7.2.8 (reserved types 0x1f*N+0x21; HTTP/2 types 0x2 0x6 0x8 0x9 MUST NOT be sent) — kani/_spec.rs.
@@ -79,6 +79,22 @@ fn assert_wire_eq(arr: &[u8; OUT], written: usize, want: &SpecBytes) {
 }
 fn wire_type(arr: &[u8; OUT], written: usize) -> u64 {
     spec_varint_dec(&arr[..written]).unwrap().0
+}
+/// [C14.frame.no-h2-types] the type on the wire is an RFC 9114 type this endpoint may send, the WebTransport
+/// signal, or a reserved (grease) type — exactly one of these — and never 0x2 0x6 0x8 0x9.
+fn assert_type_legal(arr: &[u8; OUT], written: usize, grease_expected: bool) {
+    assert!(written >= 2);
+    let t = wire_type(arr, written);
+    assert!(!spec_is_h2_reserved_frame_type(t));
+    let defined = t == SPEC_FT_DATA
+        || t == SPEC_FT_HEADERS
+        || t == SPEC_FT_CANCEL_PUSH
+        || t == SPEC_FT_SETTINGS
+        || t == SPEC_FT_GOAWAY
+        || t == SPEC_FT_MAX_PUSH_ID
+        || t == SPEC_WT_BIDI_SIGNAL;
+    assert!(defined != spec_is_grease(t));
+    assert!(spec_is_grease(t) == grease_expected);
 }
 
 // vp: props=C14; tag=C14.frametype.encode; kind=complete; tier=quick
@@ -190,6 +206,7 @@ fn c14_frame_encode_data_header() {
     let mut arr = [0u8; OUT];
     let written = encode_to(&f, &mut arr);
     assert_wire_eq(&arr, written, &spec_frame_hdr(SPEC_FT_DATA, rem0 as u64));
+    assert_type_legal(&arr, written, false);
     // encoding the header does not consume the payload, and the payload is what payload() exposes
     match f.payload() {
         Some(b) => {
@@ -216,6 +233,7 @@ fn c14_frame_encode_headers_header() {
     let mut arr = [0u8; OUT];
     let written = encode_to(&f, &mut arr);
     assert_wire_eq(&arr, written, &spec_frame_hdr(SPEC_FT_HEADERS, n as u64));
+    assert_type_legal(&arr, written, false);
     match f.payload() {
         Some(b) => {
             assert!(b.remaining() == n);
@@ -229,26 +247,46 @@ fn c14_frame_encode_headers_header() {
 }
 
 // vp: props=C14; tag=C14.frame.single-varint; kind=complete; tier=quick
-// GOAWAY / CANCEL_PUSH / MAX_PUSH_ID: RFC type, length == size of the one varint that follows, then the id
+// GOAWAY / CANCEL_PUSH / MAX_PUSH_ID: RFC type, length == size of the one varint that follows, then the id.
+// (The variant is concrete in each block: a symbolic discriminant makes CBMC explore the drop/clone glue
+// of the `Bytes`-holding variants through function pointers and does not finish.)
 #[kani::proof]
 #[kani::unwind(25)]
 #[kani::stub(fastrand::u64, stub_fastrand_u64)]
 fn c14_frame_encode_goaway_cancelpush_maxpushid() {
     let id: u64 = kani::any();
     kani::assume(id < TWO62);
-    let which: u8 = kani::any();
-    let (f, ty): (Frame<MockPayload>, u64) = match which % 3 {
-        0 => (Frame::Goaway(VarInt(id)), SPEC_FT_GOAWAY),
-        1 => (Frame::CancelPush(PushId::try_from(id).unwrap()), SPEC_FT_CANCEL_PUSH),
-        _ => (Frame::MaxPushId(PushId::try_from(id).unwrap()), SPEC_FT_MAX_PUSH_ID),
-    };
-    let mut arr = [0u8; OUT];
-    let written = encode_to(&f, &mut arr);
-    assert_wire_eq(&arr, written, &spec_frame_single_varint(ty, id));
-    assert!(f.payload().is_none());
-    kani::cover!(which % 3 == 0 && written == 10);
-    kani::cover!(which % 3 == 1 && written == 3);
-    kani::cover!(which % 3 == 2 && written == 6);
+    let mut total = 0;
+    {
+        let f: Frame<MockPayload> = Frame::Goaway(VarInt(id));
+        let mut arr = [0u8; OUT];
+        let written = encode_to(&f, &mut arr);
+        assert_wire_eq(&arr, written, &spec_frame_single_varint(SPEC_FT_GOAWAY, id));
+        assert_type_legal(&arr, written, false);
+        assert!(f.payload().is_none());
+        total += written;
+    }
+    {
+        let f: Frame<MockPayload> = Frame::CancelPush(PushId::try_from(id).unwrap());
+        let mut arr = [0u8; OUT];
+        let written = encode_to(&f, &mut arr);
+        assert_wire_eq(&arr, written, &spec_frame_single_varint(SPEC_FT_CANCEL_PUSH, id));
+        assert_type_legal(&arr, written, false);
+        assert!(f.payload().is_none());
+        total += written;
+    }
+    {
+        let f: Frame<MockPayload> = Frame::MaxPushId(PushId::try_from(id).unwrap());
+        let mut arr = [0u8; OUT];
+        let written = encode_to(&f, &mut arr);
+        assert_wire_eq(&arr, written, &spec_frame_single_varint(SPEC_FT_MAX_PUSH_ID, id));
+        assert_type_legal(&arr, written, false);
+        assert!(f.payload().is_none());
+        total += written;
+    }
+    kani::cover!(total == 30);
+    kani::cover!(total == 9);
+    kani::cover!(total == 18);
 }
 
 // vp: props=C14; tag=C14.frame.grease; kind=complete; tier=quick
@@ -264,6 +302,7 @@ fn c14_frame_encode_grease() {
     assert!(spec_is_grease(g) && g < TWO62 && !spec_is_h2_reserved_frame_type(g));
     let want = spec_bytes_lit(spec_frame_hdr(g, 6), b"grease");
     assert_wire_eq(&arr, written, &want);
+    assert_type_legal(&arr, written, true);
     assert!(written <= 8 + 1 + 6);
     assert!(f.payload().is_none());
     kani::cover!(written == 8);
@@ -283,6 +322,7 @@ fn c19_frame_encode_webtransport_stream() {
     let written = encode_to(&f, &mut arr);
     let want = spec_bytes_varint(spec_bytes_varint(spec_bytes_new(), SPEC_WT_BIDI_SIGNAL), id);
     assert_wire_eq(&arr, written, &want);
+    assert_type_legal(&arr, written, false);
     assert!(arr[0] == 0x40 && arr[1] == 0x41);
     assert!(f.payload().is_none());
     kani::cover!(written == 3);
@@ -299,55 +339,9 @@ fn c14_frame_encode_settings_empty() {
     let mut arr = [0u8; OUT];
     let written = encode_to(&f, &mut arr);
     assert_wire_eq(&arr, written, &spec_frame_hdr(SPEC_FT_SETTINGS, 0));
+    assert_type_legal(&arr, written, false);
     assert!(f.payload().is_none());
     kani::cover!(written == 2);
-}
-
-// vp: props=C14; tag=C14.frame.no-h2-types; kind=complete; tier=quick
-// whichever variant is encoded (PushPromise excepted: no API constructs one for sending), the type on the
-// wire is an RFC 9114 type, the WebTransport signal or a reserved (grease) type — never 0x2 0x6 0x8 0x9
-#[kani::proof]
-#[kani::unwind(25)]
-#[kani::stub(fastrand::u64, stub_fastrand_u64)]
-fn c14_frame_encode_never_h2_reserved_type() {
-    let id: u64 = kani::any();
-    kani::assume(id < TWO62);
-    let which: u8 = kani::any();
-    kani::assume(which < 8);
-    let f: Frame<MockPayload> = match which {
-        0 => Frame::Data(any_payload()),
-        1 => {
-            let n: usize = kani::any();
-            kani::assume(n <= BIG_LEN);
-            Frame::Headers(bytes_of_len(n))
-        }
-        2 => Frame::CancelPush(PushId::try_from(id).unwrap()),
-        3 => Frame::Settings(Settings::default()),
-        4 => Frame::Goaway(VarInt(id)),
-        5 => Frame::MaxPushId(PushId::try_from(id).unwrap()),
-        6 => Frame::WebTransportStream(SessionId::try_from(id).unwrap()),
-        _ => Frame::Grease,
-    };
-    let mut arr = [0u8; OUT];
-    let written = encode_to(&f, &mut arr);
-    assert!(written >= 2 && written <= 24);
-    let t = wire_type(&arr, written);
-    assert!(!spec_is_h2_reserved_frame_type(t));
-    let defined = t == SPEC_FT_DATA
-        || t == SPEC_FT_HEADERS
-        || t == SPEC_FT_CANCEL_PUSH
-        || t == SPEC_FT_SETTINGS
-        || t == SPEC_FT_GOAWAY
-        || t == SPEC_FT_MAX_PUSH_ID
-        || t == SPEC_WT_BIDI_SIGNAL;
-    assert!(defined != spec_is_grease(t)); // exactly one of the two
-    assert!(spec_is_grease(t) == (which == 7));
-    std::mem::forget(f);
-    kani::cover!(which == 0);
-    kani::cover!(which == 1);
-    kani::cover!(which == 3);
-    kani::cover!(which == 6);
-    kani::cover!(which == 7);
 }
 
 // vp: props=C14; tag=C14.frameheader.pushpromise; kind=bounded; bound=field section <= 16400 bytes; tier=quick
